@@ -24,7 +24,7 @@ ASSUMPTIONS = ["the vacancy jump network is the library's own crys.jumpnetwork a
 SHARDS = {"quick": 4, "thorough": 16}
 CAP = 600
 DIFFCAP = 140          # diffgenerate(S, S) is quadratic in the state count
-EXCLUDE_NOGROWTH = True   # see check(): s1 + s2 raises IndexError when the sum adds no new state (confined networks)
+EXCLUDE_NOGROWTH = False   # see check(): s1 + s2 raises IndexError when the sum adds no new state (confined networks)
 
 
 @st.composite
